@@ -14,11 +14,12 @@ pub mod c25;
 pub mod c26;
 pub mod c27;
 pub mod c28;
+pub mod c29;
 pub mod queue;
 pub mod sched;
 
 pub fn all() -> Vec<&'static dyn Property> {
-    vec![&c03::C03, &c12::C12, &c13::C13, &c14::C14, &c15::C15, &c22::C22, &c23::C23, &c24::C24, &c25::C25, &c26::C26, &c27::C27, &c28::C28]
+    vec![&c03::C03, &c12::C12, &c13::C13, &c14::C14, &c15::C15, &c22::C22, &c23::C23, &c24::C24, &c25::C25, &c26::C26, &c27::C27, &c28::C28, &c29::C29]
 }
 
 pub fn find(id: &str) -> Option<&'static dyn Property> {
